@@ -181,6 +181,9 @@ class E2Run:
             self.monitors = make_monitors(a.get("monitors", self.default_monitors), self)
             for m in self.monitors:
                 m.install(self)
+            import sys
+
+            sys.setrecursionlimit(1000 + 300 * sum(1 for m in self.monitors if m._patches))
             try:
                 self.build()
             except Violation:
